@@ -252,6 +252,8 @@ def blocking (c : Nat) (park : Bool) (kind : String) (keys : List Bytes) (timeou
           pure (some (t + timeout * TICKS))
         else pure none
       if park then
+        -- first turn of the loop: `timeout = deadline - time.time()`; a positive timeout is assumed (timeout ≥ 1 s)
+        if timeout != 0 then let _ ← nextClock
         modifyConn c fun x => { x with parked := some { kind := kind, keys := keys, db := conn.db, deadline := deadline } }
         return .ok none
       else
